@@ -239,4 +239,158 @@ theorem gaps_closeReps (l : List (Int × OutMsg)) : ∀ (a b : Int), a ≤ b →
           · simp only at hx; omega
           · exact ih (n + 1) (n + 1) (Int.le_refl _) hrest hasc' x y hg' p hp hx hy
 
+/-! ### the stored range -/
+
+theorem range_mem (st : Store) (b e : Int) (p : Int × OutMsg) :
+    p ∈ st.range b e ↔ (b ≤ p.1 ∧ p.1 ≤ e ∧ st.lookup p.1 = some p.2) := by
+  unfold Store.range
+  split
+  · simp only [List.not_mem_nil, false_iff]; omega
+  · simp only [List.mem_filterMap, List.mem_range, Option.map_eq_some_iff, Int.ofNat_eq_coe]
+    constructor
+    · rintro ⟨k, hk, m, hm, rfl⟩
+      refine ⟨by simp only; omega, ?_, hm⟩
+      simp only; omega
+    · rintro ⟨h1, h2, h3⟩
+      refine ⟨(p.1 - b).toNat, by omega, p.2, ?_, ?_⟩
+      · have : b + ((p.1 - b).toNat : Int) = p.1 := by omega
+        rw [this]; exact h3
+      · have : b + ((p.1 - b).toNat : Int) = p.1 := by omega
+        rw [this]
+
+theorem range_asc (st : Store) (b e : Int) : Asc (st.range b e) := by
+  unfold Store.range Asc
+  split
+  · exact List.Pairwise.nil
+  · refine List.Pairwise.filterMap _ ?_ List.pairwise_lt_range
+    intro k k' hk p hp q hq
+    simp only [Option.map_eq_some_iff, Int.ofNat_eq_coe] at hp hq
+    obtain ⟨_, _, rfl⟩ := hp
+    obtain ⟨_, _, rfl⟩ := hq
+    simp only; omega
+
+/-- with every number of `[b, e]` stored, the last element of the range is numbered `e` -/
+theorem endOf_range (st : Store) (b e : Int) (hbe : b ≤ e) (hall : st.HoldsAll b e) : endOf b (st.range b e) = e + 1 := by
+  have hasc := range_asc st b e
+  have hmem := range_mem st b e
+  obtain ⟨m, hm⟩ := Option.isSome_iff_exists.1 (hall e hbe (Int.le_refl _))
+  have he : (e, m) ∈ st.range b e := (hmem (e, m)).2 ⟨hbe, Int.le_refl _, hm⟩
+  generalize st.range b e = l at hasc hmem he
+  unfold endOf
+  cases hl : l.getLast? with
+  | none => rw [List.getLast?_eq_none_iff] at hl; subst hl; simp at he
+  | some p =>
+    simp only
+    have hp : p ∈ l := List.mem_of_getLast? hl
+    have h1 := ((hmem p).1 hp).2.1
+    -- nothing in an ascending list is above its last element
+    have h2 : ∀ q ∈ l, q.1 ≤ p.1 := by
+      obtain ⟨l', rfl⟩ : ∃ l', l = l' ++ [p] := by
+        have := List.getLast?_eq_some_iff.1 hl
+        obtain ⟨l', h⟩ := this; exact ⟨l', h⟩
+      intro q hq
+      rcases List.mem_append.1 hq with hq | hq
+      · have := (List.pairwise_append.1 hasc).2.2 q hq p (by simp)
+        omega
+      · simp only [List.mem_singleton] at hq; subst hq; exact Int.le_refl _
+    have := h2 _ he
+    simp only at this; omega
+
+/-! ### `Fields.set` -/
+
+theorem Fields.get?_map_set (f : Fields) (t : Nat) (v : String) (t' : Nat) :
+    Fields.get? (f.map (fun p => if p.1 == t then (t, v) else p)) t' =
+      if t' = t then (if f.has t then some v else none) else Fields.get? f t' := by
+  induction f with
+  | nil => simp [Fields.get?, Fields.has]
+  | cons p rest ih =>
+    simp only [Fields.get?, Fields.has, List.map_cons, List.find?_cons, List.any_cons] at ih ⊢
+    by_cases hp : p.1 = t
+    · simp only [hp, beq_self_eq_true, if_true, Bool.true_or]
+      by_cases ht : t' = t
+      · simp [ht]
+      · have : (t == t') = false := by simp; omega
+        simp only [this, ht, if_false]
+        rw [ih]; simp [ht]
+    · have hpt : (p.1 == t) = false := by simpa using hp
+      simp only [hpt, Bool.false_or]
+      by_cases hpt' : p.1 = t'
+      · have hne : t' ≠ t := by omega
+        simp [hpt', hne]
+      · have : (p.1 == t') = false := by simpa using hpt'
+        simp only [this, Bool.false_eq_true, if_false]
+        exact ih
+
+theorem Fields.get?_append_of_not_has (f : Fields) (t : Nat) (v : String) (t' : Nat) (h : f.has t = false) :
+    Fields.get? (f ++ [(t, v)]) t' = if t' = t then some v else Fields.get? f t' := by
+  induction f with
+  | nil => by_cases ht : t' = t <;> simp [Fields.get?, ht]; omega
+  | cons p rest ih =>
+    simp only [Fields.has, List.any_cons, Bool.or_eq_false_iff] at h
+    have hp : p.1 ≠ t := by simpa using h.1
+    simp only [Fields.get?, List.cons_append, List.find?_cons] at ih ⊢
+    by_cases hpt' : p.1 = t'
+    · have : t' ≠ t := by omega
+      simp [hpt', this]
+    · have : (p.1 == t') = false := by simpa using hpt'
+      simp only [this]
+      exact ih h.2
+
+theorem Fields.get?_set (f : Fields) (t : Nat) (v : String) (t' : Nat) :
+    Fields.get? (Fields.set f t v) t' = if t' = t then some v else Fields.get? f t' := by
+  unfold Fields.set
+  split
+  · rename_i h; rw [Fields.get?_map_set]; simp [h]
+  · rename_i h
+    exact Fields.get?_append_of_not_has f t v t' (by simpa using h)
+
+theorem Fields.filter_map_set (f : Fields) (t : Nat) (v : String) (q : Nat → Bool) (hq : q t = false) :
+    (f.map (fun p => if p.1 == t then (t, v) else p)).filter (fun p => q p.1) = f.filter (fun p => q p.1) := by
+  induction f with
+  | nil => rfl
+  | cons p rest ih =>
+    simp only [List.map_cons, List.filter_cons]
+    by_cases hp : p.1 = t
+    · simp only [hp, beq_self_eq_true, if_true, hq, Bool.false_eq_true, if_false]; exact ih
+    · have hpt : (p.1 == t) = false := by simpa using hp
+      simp only [hpt, Bool.false_eq_true, if_false, ih]
+
+theorem Fields.filter_set (f : Fields) (t : Nat) (v : String) (q : Nat → Bool) (hq : q t = false) :
+    (Fields.set f t v).filter (fun p => q p.1) = f.filter (fun p => q p.1) := by
+  unfold Fields.set
+  split
+  · exact Fields.filter_map_set f t v q hq
+  · simp [List.filter_append, hq]
+
+/-! ### the messages of a reply -/
+
+theorem gapFill_kind (a b : Int) : (gapFill a b).kind = "4" := rfl
+theorem gapFill_seq (a b : Int) : (gapFill a b).seq = a := rfl
+theorem gapFill_fields (a b : Int) :
+    (gapFill a b).f.get? 36 = some (toString b) ∧ (gapFill a b).f.get? 43 = some "Y" ∧
+    ((gapFill a b).f.get? 122).isSome = true ∧ (gapFill a b).f.get? 123 = some "Y" := by
+  simp [gapFill, Fields.get?]
+
+theorem resent_kind (m : OutMsg) : (resent m).kind = m.kind := rfl
+theorem resent_seq (m : OutMsg) : (resent m).seq = m.seq := rfl
+theorem resent_possDup (m : OutMsg) : (resent m).f.get? 43 = some "Y" := by
+  simp [resent, Fields.get?_set]
+theorem resent_origSendingTime (m : OutMsg) : ((resent m).f.get? 122).isSome = true := by
+  simp [resent, Fields.get?_set]
+/-- every other field keeps its value … -/
+theorem resent_get? (m : OutMsg) (t : Nat) (h43 : t ≠ 43) (h122 : t ≠ 122) : (resent m).f.get? t = m.f.get? t := by
+  simp [resent, Fields.get?_set, h43, h122]
+/-- … and the fields other than 43 and 122 are the stored ones, same order, same multiplicity -/
+theorem resent_body (m : OutMsg) :
+    (resent m).f.filter (fun p => p.1 != 43 && p.1 != 122) = m.f.filter (fun p => p.1 != 43 && p.1 != 122) := by
+  unfold resent
+  simp only
+  rw [Fields.filter_set _ 122 "+" (fun t => t != 43 && t != 122) (by simp),
+      Fields.filter_set _ 43 "Y" (fun t => t != 43 && t != 122) (by simp)]
+
+theorem rep_out_possDup (r : Rep) : r.out.f.get? 43 = some "Y" ∧ (r.out.f.get? 122).isSome = true := by
+  cases r with
+  | gap a b => exact ⟨(gapFill_fields a b).2.1, (gapFill_fields a b).2.2.1⟩
+  | msg n m => exact ⟨resent_possDup m, resent_origSendingTime m⟩
+
 end Qfx.Sess
